@@ -1195,7 +1195,9 @@ impl World {
     }
 
     fn srv(&mut self, id: i64) {
-        let idx = self.server.reqs.iter().position(|r| r.id == id && !r.done).expect("srv target");
+        // IDs are unique among open requests on a correct tree; a tree which hands an ID out twice
+        // can leave two of them here, and then the one which may be answered is meant
+        let idx = self.server.reqs.iter().position(|r| r.id == id && self.srv_can_answer(r)).expect("srv target");
         let r = self.server.reqs[idx].clone();
         let plan = self.plan(&r.marker);
         let res_ctl = |marker: &str| Ctl { oid: RES_CTL_OID.as_bytes().to_vec(), crit: None, val: Some(marker.as_bytes().to_vec()) };
